@@ -26,6 +26,9 @@ pub enum Step {
 	PushPlain,
 	AnswerUnknown(u8),
 	AnswerAgain { pick: u16 },
+	/// the application gives up on an outstanding call / subscribe / batch (its future is dropped, as a time-out
+	/// does); the server may still answer it later, which must concern nobody
+	Abandon { pick: u16 },
 }
 
 #[derive(Clone, Debug, Serialize, Deserialize)]
@@ -70,6 +73,7 @@ pub struct Op {
 	/// payload the mock server stamped for this op (per entry), in the order it was sent
 	pub stamped: Vec<Option<Result<Value, (i32, String)>>>,
 	pub answered_before_poison: bool,
+	pub abandoned: bool,
 }
 
 pub struct World {
@@ -98,7 +102,7 @@ impl World {
 				Err(e) => err_outcome(e),
 			}
 		});
-		self.ops.push(Op { kind: OpKind::Call, methods: vec![method], handle, wire_ids: vec![None], stamped: vec![None], answered_before_poison: false });
+		self.ops.push(Op { kind: OpKind::Call, methods: vec![method], handle, wire_ids: vec![None], stamped: vec![None], answered_before_poison: false, abandoned: false });
 	}
 
 	pub fn spawn_subscribe(&mut self) {
@@ -121,7 +125,7 @@ impl World {
 				Err(e) => err_outcome(e),
 			}
 		});
-		self.ops.push(Op { kind: OpKind::Subscribe, methods: vec![method], handle, wire_ids: vec![None], stamped: vec![None], answered_before_poison: false });
+		self.ops.push(Op { kind: OpKind::Subscribe, methods: vec![method], handle, wire_ids: vec![None], stamped: vec![None], answered_before_poison: false, abandoned: false });
 	}
 
 	pub fn spawn_batch(&mut self, n: usize) {
@@ -147,7 +151,7 @@ impl World {
 				Err(e) => err_outcome(e),
 			}
 		});
-		self.ops.push(Op { kind: OpKind::Batch(n), methods, handle, wire_ids: vec![None; n], stamped: vec![None; n], answered_before_poison: false });
+		self.ops.push(Op { kind: OpKind::Batch(n), methods, handle, wire_ids: vec![None; n], stamped: vec![None; n], answered_before_poison: false, abandoned: false });
 	}
 
 	pub fn spawn_notify(&mut self) {
@@ -161,7 +165,7 @@ impl World {
 				Err(e) => err_outcome(e),
 			}
 		});
-		self.ops.push(Op { kind: OpKind::Notify, methods: vec![method], handle, wire_ids: vec![], stamped: vec![], answered_before_poison: false });
+		self.ops.push(Op { kind: OpKind::Notify, methods: vec![method], handle, wire_ids: vec![], stamped: vec![], answered_before_poison: false, abandoned: false });
 	}
 
 	/// look at the wire: fill in the ids each op put there
@@ -291,6 +295,7 @@ impl SubCheck for Routing {
 			2 => (1u8..5).prop_map(Step::Batch),
 			1 => Just(Step::Notify),
 			6 => (any::<u16>(), proptest::bool::weighted(0.25)).prop_map(|(pick, err)| Step::Answer { pick, err }),
+			1 => any::<u16>().prop_map(|pick| Step::Abandon { pick }),
 			2 => (any::<u16>(), proptest::collection::vec(any::<u16>(), 4)).prop_map(|(pick, perm)| Step::AnswerBatch { pick, perm }),
 			2 => (any::<u16>(), any::<bool>()).prop_map(|(pick, packed)| Step::PushSub { pick, packed }),
 			1 => Just(Step::PushPlain),
@@ -322,6 +327,7 @@ impl SubCheck for Routing {
 			let mut max_outstanding = 0usize;
 			let mut since_last_answer_other = false;
 			let mut late_sends = 0u32;
+			let mut abandoned = 0u32;
 			for (step, settle_after) in &case.steps {
 				w.read_wire();
 				// wire ids of concurrently pending single requests are pairwise distinct
@@ -415,9 +421,24 @@ impl SubCheck for Routing {
 						w.poisoned = true;
 						w.mc.push_text(json!({"jsonrpc":"2.0","id":id,"result":{"nonce":n,"poison":true}}).to_string());
 					}
+					Step::Abandon { pick } => {
+						// anything that is on the wire and not answered yet
+						let mut out = w.outstanding_singles();
+						out.extend(w.outstanding_batches());
+						out.retain(|i| !w.ops[*i].abandoned);
+						if !out.is_empty() && !w.poisoned {
+							let op = out[pick_idx(*pick, out.len())];
+							w.ops[op].handle.abort();
+							w.ops[op].abandoned = true;
+							abandoned += 1;
+						}
+					}
 					Step::AnswerAgain { pick } => {
-						if !w.answered_single.is_empty() {
-							let (_, id) = w.answered_single[pick_idx(*pick, w.answered_single.len())].clone();
+						// (not the id of an abandoned subscribe: while the client's own unsubscribe for it is unacknowledged the
+						// id is still on the books, a second answer is swallowed and completes nothing - which is all C03 asks)
+						let again: Vec<(usize, Value)> = w.answered_single.iter().filter(|(op, _)| !w.ops[*op].abandoned).cloned().collect();
+						if !again.is_empty() {
+							let (_, id) = again[pick_idx(*pick, again.len())].clone();
 							// only meaningful if nobody is waiting on that id any more
 							let n = w.next_nonce();
 							w.poisoned = true;
@@ -449,9 +470,20 @@ impl SubCheck for Routing {
 			if late_sends > 0 {
 				obs.class("answered-before-send-returned");
 			}
+			if abandoned > 0 {
+				obs.class("with-abandoned-request");
+			}
+			if w.ops.iter().any(|o| o.abandoned && o.stamped.iter().any(|s| s.is_some())) {
+				obs.class("abandoned-request-answered-late");
+				obs.nontrivial();
+			}
 			let connected = w.mc.client.is_connected();
 			for (i, (op, out)) in w.ops.iter().zip(outs.iter()).enumerate() {
-				let desc = || format!("op#{i} {:?} methods={:?} wire_ids={:?} stamped={:?} outcome={out:?} poisoned={} steps={:?}", op.kind, op.methods, op.wire_ids, op.stamped, w.poisoned, case.steps);
+				let desc = || format!("op#{i} {:?} methods={:?} wire_ids={:?} stamped={:?} outcome={out:?} poisoned={} connected={connected} steps={:?} wire={:?} events={:?}", op.kind, op.methods, op.wire_ids, op.stamped, w.poisoned, case.steps, w.wire, w.mc.shared.events.lock());
+				if op.abandoned {
+					// nobody is waiting: nothing to compare (the others and the connection are judged as usual)
+					continue;
+				}
 				match &op.kind {
 					OpKind::Notify => {}
 					OpKind::Call | OpKind::Subscribe => {
@@ -508,7 +540,7 @@ impl SubCheck for Routing {
 
 pub fn check(ctx: &mut Ctx) {
 	ctx.rule = "histories of front-end operations {call, subscribe, batch(1..4), notification} interleaved with mock-server steps {answer any outstanding request with a nonce-stamped result/error, answer a batch in any permutation, \
-		push subscription / plain notifications singly or packed in arrays, answer an id nobody waits for, answer an id twice}, settle-or-not after each step, send() yielding 0..3 times, id kind number/string. \
+		push subscription / plain notifications singly or packed in arrays, answer an id nobody waits for, answer an id twice, the application abandoning an outstanding request (dropped future, as a time-out does) that may still be answered later}, settle-or-not after each step, send() yielding 0..3 times, id kind number/string. \
 		Oracle: every completed call/subscribe/batch returns exactly the payload stamped for its own wire id (found via its unique method name), unanswered ones stay pending while connected, nothing completes with a payload after a response that matches nothing pending; pending wire ids pairwise distinct. \
 		Non-trivial = >= 2 requests outstanding at once and answered out of FIFO order or with a notification/batch reply in between; distinct by case value."
 		.into();
